@@ -139,6 +139,8 @@ structure CacheSlot where
 structure St where
   handles : Handles.St := Handles.init 0
   caches : List CacheSlot := []
+  pm : Portmap.Registry := []
+  pmAddr : Bytes := []
   buckets : List (String × Bucket.TB) := []
   limiters : List (String × Bucket.RL) := []
 
@@ -158,6 +160,23 @@ def showRat (q : Rat) : String := s!"{q.num}/{q.den}"
 def mkRat (n d : Nat) : Rat := (n : Rat) / (d : Rat)
 
 def b01 (b : Bool) : String := if b then "1" else "0"
+
+def pmChecks : Portmap.Checks :=
+  { v2Set := Gen.pmV2SetChecked, v2Unset := Gen.pmV2UnsetChecked, rpcbSet := Gen.pmRpcbSetChecked,
+    rpcbUnset := Gen.pmRpcbUnsetChecked, mismatchInfo := Gen.pmMismatchInfo }
+
+def pmCmd (st : St) : List String → St × String
+  | ["reset", a] => match fromHex a with
+    | some a => ({ st with pm := [], pmAddr := a }, "ok")
+    | none => (st, "bad-op")
+  | ["call", who, h] => match fromHex h with
+    | some bs =>
+      let c := if who = "loop" then Portmap.Caller.loopback else Portmap.Caller.other
+      let r := Portmap.handleCall pmChecks Gen.maxRpcAuth Gen.maxXdrString st.pmAddr st.pm c bs
+      ({ st with pm := r.1 }, match r.2 with | some b => toHex b | none => "none")
+    | none => (st, "bad-op")
+  | ["reg"] => (st, ",".intercalate (st.pm.map fun m => s!"{m.prog}:{m.vers}:{m.prot}:{m.port}"))
+  | _ => (st, "bad-op")
 
 def rlCmd (st : St) : List String → St × String
   | ["bucket", name, n, d, burst, now] =>
@@ -289,7 +308,7 @@ def handlesCmd (st : St) : List String → St × String
   | _ => (st, "bad-op")
 
 def step (st : St) (line : String) : St × String :=
-  match (line.trimAscii.toString.splitOn " ").filter (fun t => t ≠ "" ∧ ¬ t.startsWith "#") with
+  match ((line.trimAscii.toString.splitOn " ").filter (fun t => t ≠ "")).takeWhile (fun t => ¬ t.startsWith "#") with
   | "xdr" :: args => (st, xdrCmd args)
   | "rpc" :: args => (st, rpcCmd args)
   | "rm" :: args => (st, rmCmd args)
@@ -298,6 +317,7 @@ def step (st : St) (line : String) : St × String :=
   | "handles" :: args => handlesCmd st args
   | "lru" :: args => lruCmd st args
   | "rl" :: args => rlCmd st args
+  | "pm" :: args => pmCmd st args
   | ["reset"] => ({}, "ok")
   | _ => (st, "bad-op")
 
